@@ -249,6 +249,20 @@ def _mk_path_calls(real_os, real_fdopen):
             "remove": one("remove"), "unlink": one("unlink"), "truncate": truncate, "listdir": listdir}
 
 
+def _mk_realpath(real):
+    """os.path.realpath that knows the SIMULATED symbolic links too (a lock name derived from realpath() instead of
+    Path.resolve() must see the same aliasing)."""
+    def realpath(path, *a, **kw):
+        k = K.CURRENT
+        if k is not None and k.symlinks and not isinstance(path, (bytes, int)):
+            try:
+                return k.norm(path)
+            except TypeError:
+                pass
+        return real(path, *a, **kw)
+    return realpath
+
+
 def _mk_stat(real):
     def stat(path, *a, **kw):
         k = K.CURRENT
@@ -346,6 +360,7 @@ def _build_patches():
         (_os, "fsync", _mk_fsync(_os.fsync)),
         (_os, "fdatasync", _mk_fsync(_os.fdatasync)),
         (_os, "fstat", _mk_fstat(_os.fstat)),
+        (_os.path, "realpath", _mk_realpath(_os.path.realpath)),
     ] + [(_os, n_, f_) for n_, f_ in _mk_path_calls({n_: getattr(_os, n_) for n_ in ("open", "close", "replace", "rename", "remove", "unlink", "truncate", "listdir")}, _os.fdopen).items()] + [
     ] + [(_os, n_, f_) for n_, f_ in _mk_fd_calls({n_: getattr(_os, n_) for n_ in ("pwrite", "pread", "write", "read", "lseek", "ftruncate")}).items()] + [
         (_os, "stat", _mk_stat(_os.stat)),
@@ -371,10 +386,10 @@ def _build_patches():
     # `from os import fstat` (or `from io import open`, `from mmap import mmap`) binds the REAL function in the importing
     # module when it is imported: patching the attribute of `os` later does not reach that name.  Every name of a storage
     # module that is one of the real functions redirected above is therefore redirected in that module too.
-    redirected = {id(getattr(m_, n_)): w_ for (m_, n_, w_) in patches if m_ is _os and hasattr(m_, n_)}
+    redirected = {id(getattr(m_, n_)): w_ for (m_, n_, w_) in patches if m_ in (_os, _os.path) and hasattr(m_, n_)}
     redirected[id(_io.open)] = K.sim_open
     redirected[id(_mmap.mmap)] = mmap_proxy.mmap
-    for m_ in storage_mods:
+    for m_ in storage_mods + (molli._aux.lock,):
         for n_, v_ in list(vars(m_).items()):
             w_ = redirected.get(id(v_))
             if w_ is not None and not any(pm is m_ and pn == n_ for (pm, pn, _w) in patches):
